@@ -1411,6 +1411,9 @@ class SVG:
         violations = self.checkpicosvg(
             allow_text=allow_text, drop_unsupported=drop_unsupported
         )
+        if drop_unsupported:
+            # a dropped element may have been the last user of a gradient
+            self._remove_orphaned_gradients()
         if violations:
             raise ValueError("Unable to convert to picosvg: " + ",".join(violations))
 
